@@ -46,6 +46,40 @@ func checkC09(c *Ctx, r *Report) {
 		}
 		r.floor("R9.5", 10)
 	}
+	// R9.8: the CRC-verifying request entry points accept exactly the frames whose trailer is the
+	// CRC of everything before it — of the whole input, not of a trimmed view (C03 R3.2)
+	{
+		n := 0
+		for _, fn := range c.allFuncs("packet") {
+			if fn.Parent() != nil || fn.Object() == nil || !fn.Object().Exported() || fn.Signature.Recv() != nil {
+				continue
+			}
+			res := fn.Signature.Results()
+			if res.Len() != 2 || !isErrorType(res.At(1).Type()) || !callsWithin(fn, crc, 0) {
+				continue
+			}
+			// a verifying entry point of the request direction: it hands on to a function that returns a request
+			toReq := false
+			for _, b := range fn.Blocks {
+				for _, in := range b.Instrs {
+					if cl, ok := in.(*ssa.Call); ok {
+						if sc := cl.Common().StaticCallee(); sc != nil && sc.Signature.Results().Len() > 0 && strings.HasSuffix(sc.Signature.Results().At(0).Type().String(), ".Request") {
+							toReq = true
+						}
+					}
+				}
+			}
+			if !toReq {
+				continue
+			}
+			tmp := newReport(r.Prop, r.Tier)
+			c03Verifier(c, tmp, fn, crc, false)
+			n += copyItems(tmp, r, "R3.2", "R9.8")
+			r.funcs[fnID(fn)] = true
+		}
+		r.instance("R9.8", n)
+		r.floor("R9.8", 1)
+	}
 	r.assumption("requests are those the constructors return (success state), further restricted to specification-legal quantities for the round trip")
 	r.assumption("CRC16 uninterpreted; slice lengths below 2^31; int is 64 bits wide")
 }
